@@ -112,7 +112,7 @@ def case_line(i, c):
     p = param
     if base in ("regexp", "regexpq", "seq"):
         p = hexs(param)
-    return "Q %d %s %s %d %d %s" % (i, kind, p, npipes, len(seq),
+    return "Q %s %s %s %d %d %s" % (i, kind, p, npipes, len(seq),
                                     " ".join("%d %d %s" % (pi, t, "~" if tx is None else hexs(tx)) for pi, t, tx in seq))
 
 
